@@ -119,16 +119,19 @@ PROPS.update({
     "C17": _e2("TestVerifC17", "Generated adders, bursts, Close position and schedules over the real ShardQueue (its atomics, spin locks and worker task are schedule points); exactly-once and 'flushed without a further Add' are judged at exact quiescence.",
                "scenario = 1-4 shards x 1-4 adder goroutines x 1-5 Add calls of 1-3 getters x optional Close after k Adds returned x 0-2 Adds after Close returned; non-trivial = at least two worker tasks ran, or an Add from one of several adders raced the first worker; distinct = scenario + event sequence + number of steps",
                quick=4000, thorough=100000, pkg="mux"),
+    "C11": _e2("TestVerifC11", "Harness FDOperators with recording callbacks on a real poller whose Wait loop is an actor; generated peer scripts make the kernel itself produce IN/OUT/RDHUP/HUP/ERR combinations (no synthetic flag sets); per-descriptor callback histories are judged at exact quiescence.",
+               "scenario = 1-5 descriptors (+120-140 idle ones in 5% of the cases, crossing the 128-event array growth) x Inputs buffer size x optional output stream through Outputs/OutputAck with a 2 KiB socket buffer x peer script (writes, reads, shutdown, close, close with unread data) x user detach x Trigger x Close; non-trivial = at least two descriptors and one of them got data and hang-up; distinct = scenario + event sequence",
+               quick=1500, thorough=40000),
 })
 
 ENGINES = [
     {"name": "E1 bufmachine", "path": "harness/netpoll/e1_*_test.go", "serves_properties": ["C01", "C02", "C03", "C16"], "kind_free_text": "rapid state machine over LinkBuffer against a FIFO byte-queue model with a recording pool allocator"},
-    {"name": "E3 livenet", "path": "harness/netpoll/e3_*_test.go", "serves_properties": ["C04", "C11", "C13", "C14", "C15", "C18", "C19"], "kind_free_text": "rapid-generated workloads on real threads, real pollers and real sockets with schedule-independent oracles (streams, censuses, close(2) audit)"},
-    {"name": "E2 simworld", "path": "harness/netpoll/e2_*_test.go + harness/verifsched + tools/vinstr", "serves_properties": ["C04", "C05", "C06", "C07", "C08", "C09", "C10", "C11", "C13", "C17", "C18"], "kind_free_text": "generated schedules: schedule points injected at build time, cooperative scheduler around the real poller loop on socketpairs"},
+    {"name": "E3 livenet", "path": "harness/netpoll/e3_*_test.go", "serves_properties": ["C04", "C13", "C14", "C15", "C18", "C19"], "kind_free_text": "rapid-generated workloads on real threads, real pollers and real sockets with schedule-independent oracles (streams, censuses, close(2) audit)"},
+    {"name": "E2 simworld", "path": "harness/netpoll/e2_*_test.go + harness/verifsched + tools/vinstr", "serves_properties": ["C04", "C05", "C06", "C07", "C08", "C09", "C10", "C13", "C17", "C18"], "kind_free_text": "generated schedules: schedule points injected at build time, cooperative scheduler around the real poller loop on socketpairs"},
 ]
 
 # properties not claimed yet (kept current while the framework is being built)
 NOT_APPLICABLE = [
     {"property_id": p, "reason": "check under construction in this session; not claimed until it has been run clean on the unchanged tree"}
-    for p in [ "C11", "C13", "C14", "C15", "C18", "C19"]
+    for p in [ "C13", "C14", "C15", "C18", "C19"]
 ]
